@@ -120,6 +120,47 @@ let handle kind a =
            | BInterrupted -> Some "Err:Interrupted"
            | BNoFuel -> Some "NoFuel")
       end
+  | "aw" | "adw" | "adwf" | "adwx" | "adwv" | "adwvf" ->
+      let codes_of s = if s = "_" then [] else List.map (fun t -> nat_of_int (int_of_string t)) (String.split_on_char ',' s) in
+      if kind = "aw" then begin
+        let (w, chained) = async_window_case (codes_of a.(2)) (nat_of_int (int_of_string a.(3))) (bytes_of_hex a.(1)) in
+        (match w with
+         | WOk w -> Some ("Ok:" ^ hex_of_bytes w ^ ":" ^ string_of_int (List.length chained))
+         | WInterrupted -> Some "Err:Interrupted"
+         | WNoFuel -> Some "NoFuel")
+      end else begin
+        let cfg = a.(0) in
+        let src = { a_data = bytes_of_hex a.(1); a_polls = polls_of (codes_of a.(3)) } in
+        let chunk = nat_of_int (int_of_string a.(4)) in
+        let infl = { avail = bytes_of_hex a.(5); stop = stop_of a.(6) } in
+        let blur f c =
+          if kind = "adwx" then "Ok:~:~"
+          else "Ok:" ^ f ^ ":" ^ comp_chr (kind = "adwf" || kind = "adwvf") c in
+        if kind = "adwv" || kind = "adwvf" then
+          (match build_async_v (comp_of cfg.[0]) (vfmt_of cfg.[1]) (fun _ -> infl) (fun _ -> chunk) src with
+           | BOk (f, c) -> Some (blur (match f with Vcf -> "v" | Bcf -> "b") c)
+           | BErr e -> Some ("Err:" ^ str_err a.(6) e)
+           | BInterrupted -> Some "Err:Interrupted"
+           | BNoFuel -> Some "NoFuel")
+        else
+          (match build_async_a (comp_of cfg.[0]) (afmt_of cfg.[1]) (fun _ -> infl) (fun _ -> chunk) src with
+           | BOk (f, c) -> Some (blur (match f with Sam -> "s" | Bam -> "b" | Cram -> "c") c)
+           | BErr e -> Some ("Err:" ^ str_err a.(6) e)
+           | BInterrupted -> Some "Err:Interrupted"
+           | BNoFuel -> Some "NoFuel")
+      end
+  | "cvsb" | "cvbs" ->
+      let refs = if a.(0) = "_" then [] else List.map bytes_of_hex (String.split_on_char ',' a.(0)) in
+      let show = function
+        | CvOk out -> "Ok:" ^ hex_of_bytes out
+        | CvReadErr _ -> "Err"
+        | CvEof -> "Eof"
+        | CvDecodeErr _ -> "Err"
+        | CvForeign -> "Foreign"
+        | CvWriteErr -> "Err" in
+      (* no float fields in the generated records: the float text oracles are never consulted *)
+      if kind = "cvsb" then Some (show (convert_sam_bam (fun _ -> None) (fun _ -> None) refs (bytes_of_hex a.(1))))
+      else Some (show (convert_bam_sam (fun _ -> []) (fun _ -> []) refs (bytes_of_hex a.(1))))
   | _ -> None
 
 let () = run_driver handle
